@@ -202,9 +202,12 @@ def check_ids(kind, ids, res):
 
 
 # ------------------------------------------------------------------ tables
-def check_table(n, form, res):
+def check_table(n, form, res, kind="std"):
     from pyyeti.nastran import bulk
 
+    if kind != "std":
+        m_ = check_table_kind(n, form, kind)
+        return m_
     t = np.array([0.0, 0.001, 0.5, 1.0, 2.5, 10.0, 100.0, 1e3, 1.5e3, 2e3, 1e4, 2e4, 1e5, 2e5, 1e6, 2e6, 1e7])[:n]
     d = np.array([1.0, -2.5, 0.0, 3.25e-5, -4e3, 5.5, -6.125, 7e7, 0.5, -0.25, 9.0, 1e-9, -1e9, 2.0, 3.0, -4.0, 5.0])[:n]
     if "f}" in form:  # values that fit 8 characters in fixed notation
@@ -234,6 +237,36 @@ def check_table(n, form, res):
         err[(want == 0) & (g == 0)] = 0
     if not np.all(err <= digits):
         return ["table with %d points: values differ beyond the written precision (max rel err %.3g)" % (n, err.max())]
+    return []
+
+
+def check_table_kind(n, form, kind):
+    """tables whose LAST point is (0, 0) or has y = 0 / x = 0: the ENDT marker, not the values, ends the table"""
+    from pyyeti.nastran import bulk
+
+    if kind == "origin-last":  # (values with two significant digits: exact in every written format)
+        t = (np.arange(n) - (n - 1)) * 0.5
+        d = np.array([2.0, -1.5, 0.5, 1.0] * 5)[:n].copy()
+        d[-1] = 0.0
+    elif kind == "zeros-tail":  # several trailing points with y = 0 and the last x = 0
+        t = (np.arange(n) - (n - 1)) * 0.5
+        d = np.where(np.arange(n) < max(1, n - 3), 1.5, 0.0)
+    else:  # all zero
+        t = np.zeros(n)
+        t[:] = (np.arange(n) - (n - 1)) * 1.0
+        d = np.zeros(n)
+    f = S()
+    try:
+        with warnings.catch_warnings():
+            warnings.simplefilter("ignore")
+            bulk.wttabled1(f, 42, t, d, form=form)
+            got = bulk.rdtabled1(back(f))
+    except Exception as e:  # noqa
+        return ["wttabled1/rdtabled1 (%s table, %d points, form %r) raised %r" % (kind, n, form, e)]
+    g = got.get(42)
+    want = np.column_stack((t, d))
+    if g is None or g.shape != want.shape or not np.allclose(g, want, rtol=1e-9, atol=1e-9):
+        return ["%s table with %d points reads back as %s; written %s" % (kind, n, None if g is None else g.tolist()[-3:], want.tolist()[-3:])]
     return []
 
 
@@ -407,6 +440,23 @@ def check_coords(res):
                 msgs.append("uset2bulk/bulk2uset raised %r for coordinate chain %s" % (e, types))
                 continue
             res.ev("coords/depth%d/%s" % (depth, "".join(map(str, types))))
+            # scalar points in the table (before, between, after the grids; 1, 6 or 7 of them) do not change the bulk data
+            try:
+                import pandas as pd
+
+                base_txt = f.getvalue()
+                for nsp, where in itertools.product((1, 6, 7), ("lead", "mid", "trail")):
+                    sp = n2p.make_uset([[9000 + k, 0] for k in range(nsp)], "q")
+                    uu = {"lead": pd.concat([sp, uset]), "mid": pd.concat([uset.iloc[:6], sp, uset.iloc[6:]]), "trail": pd.concat([uset, sp])}[where]
+                    f2 = S()
+                    with warnings.catch_warnings():
+                        warnings.simplefilter("ignore")
+                        bulk.uset2bulk(f2, uu)
+                    if f2.getvalue() != base_txt:
+                        msgs.append("uset2bulk of a table with %d scalar point(s) (%s) writes different GRID / CORD2 data than the grid-only table (chain %s)" % (nsp, where, types))
+                        break
+            except Exception as e:  # noqa
+                msgs.append("uset2bulk of a table with scalar points raised %r (chain %s)" % (e, types))
             a, b = uset.values.astype(float), uset2.values.astype(float)
             if a.shape != b.shape or list(uset.index) != list(uset2.index):
                 msgs.append("uset2bulk -> bulk2uset changed the table layout for chain %s" % (types,))
@@ -502,10 +552,13 @@ def run_shard(sh):
     elif sh["part"] == "tables":
         for n in range(1, 18):
             for form in ("{:16.9E}{:16.9E}", "{:8.2f}{:8.5f}", "{:8.1E}{:8.1E}"):
-                msgs = check_table(n, form, res)
-                res.ev("table/n%d/%s" % (n, form))
-                for m in msgs:
-                    res.viol(dict(part="tables", n=n, form=form), m, kind="table-" + m.split(" with")[0][:24] + ("-raise" if "raised" in m else ""))
+                for kind_ in ("std", "origin-last", "zeros-tail", "all-zero"):
+                    if kind_ != "std" and "f}" in form and n > 12:
+                        continue
+                    msgs = check_table(n, form, res, kind=kind_)
+                    res.ev("table/n%d/%s/%s" % (n, form, kind_))
+                    for m in msgs:
+                        res.viol(dict(part="tables", n=n, form=form, kind=kind_), m, kind="table-" + m.split(" with")[0][:24] + ("-raise" if "raised" in m else ""))
         res.sample(dict(part="tables", n=n, form=form))
     elif sh["part"] == "dmig":
         for (r, c, p, vc, rs) in dmig_cases(sh["form"], tier):
@@ -533,7 +586,7 @@ def replay(case):
     if p == "ids":
         return check_ids(case["kind"], case["ids"], res)
     if p == "tables":
-        return check_table(case["n"], case["form"], res)
+        return check_table(case["n"], case["form"], res, kind=case.get("kind", "std"))
     if p == "dmig":
         return check_dmig(case["form"], case["mtype"], case["r"], case["c"], case["pattern"], case["vclass"], case["rs"], res)[0]
     if p == "grids":
